@@ -60,7 +60,7 @@ WindowLaw ==
   g.pat = "pow2" =>
   \A i \in 1..Len(gr) :
      LET r == Eval(sc, 1, gr[i])  w == InWin(g, gr[i]) IN
-     /\ ~r.err /\ ~r.unk
+     /\ r.why = {} /\ ~r.unk
      /\ IF w = {} THEN Len(r.vec) = 0
         ELSE Len(r.vec) = 1 /\ r.vec[1].val = I(FoldSet(LAMBDA u, acc : acc + 2 ^ u, 0, w)) /\ r.vec[1].ls = {<<"a", "x">>}
 
